@@ -180,6 +180,25 @@ class GenModel:
         return None
 
 
+def unconditional_callees(model, f, depth=2, _seen=None):
+    """f itself and the in-repo functions it calls on every path (transitively, up to depth): code that was moved into a helper
+    which the function always calls is still part of what the function does."""
+    _seen = _seen if _seen is not None else set()
+    out = [f]
+    _seen.add(f['sig'])
+    if depth <= 0 or f.get('body') is None:
+        return out
+    g = model.cfg(f)
+    for ev in g.calls():
+        e = ev.e
+        if not e.get('callee_in_repo') or ev.conditional or not g.on_all_paths(ev):
+            continue
+        tg = [x for x in model.all_fns() if x['q'] == e.get('callee') and x.get('body') is not None]
+        if len(tg) == 1 and tg[0]['sig'] not in _seen:
+            out.extend(unconditional_callees(model, tg[0], depth - 1, _seen))
+    return out
+
+
 def map_lookup(model, f, e, depth=0):
     """(map expression, key expression) when e denotes the mapped value of an associative-container lookup:
     M[key], M.at(key), M.find(key)->second, (*M.find(key)).second, it->second with it = M.find(key)."""
